@@ -783,6 +783,697 @@ Module ExMerge.
   Proof. destruct ex2_computed as (A & B & C & D & E & _). repeat split; assumption. Qed.
 End ExMerge.
 
+(* ------------------------------------------------------------ NON-VACUITY (audit) *)
+(* Every theorem above APPLIED to a concrete non-trivial instance, all its hypotheses discharged at once
+   (`<theorem>_nonvacuous`); `..._value` / `..._picks` examples compute the witness or branch really taken.
+   C08_uniform_params_refuted is a closed existential (its witness is checked in ExParams above). *)
+
+(* ---- 1. the threshold lemma: weights 2, skipped, 3 *)
+Definition w3 (b : Z) : res (option Z) := if b =? 0 then Ok None else Ok (Some b).
+Lemma w3_ok : weights_ok w3 [2; 0; 3].
+Proof.
+  intros b [<-|[<-|[<-|[]]]]; eexists; (split; [reflexivity|]); intros w E; try discriminate E;
+    injection E as <-; lia.
+Qed.
+
+(* covers C08_threshold: branch 2 (weight 3) is picked by exactly 3 of the draws 1..5, the draw 4
+   returns, the draw 6 raises (Ex.walk_2_skip_3 shows which branch every draw takes) *)
+Example C08_threshold_nonvacuous :
+  Z.of_nat (length (filter (fun r => picks 2 (walk w3 r 0 0%nat [2; 0; 3])) (py_range 1 (5 + 1)))) = 3 /\
+  (exists j b, walk w3 4 0 0%nat [2; 0; 3] = Ok (j, b) /\ nth_error [2; 0; 3] j = Some b) /\
+  walk w3 6 0 0%nat [2; 0; 3] = Err E_RUNTIME.
+Proof.
+  destruct (C08_threshold Z w3 [2; 0; 3] w3_ok) as (A & B & C).
+  split; [exact (A 2%nat 3 eq_refl)|]. split; [apply B|apply C]; change (total_weight w3 [2; 0; 3]) with 5; lia.
+Qed.
+
+(* covers C08_threshold_interval: both directions, on the draw 4 (interval (2, 5] of branch 2) and
+   on the draw 2 which is NOT in that interval *)
+Example C08_threshold_interval_nonvacuous :
+  walk w3 4 0 0%nat [2; 0; 3] = Ok (2%nat, 3) /\ walk w3 2 0 0%nat [2; 0; 3] <> Ok (2%nat, 3).
+Proof.
+  split.
+  - apply (C08_threshold_interval Z w3 [2; 0; 3] 4 2%nat 3 w3_ok ltac:(lia)).
+    split; [reflexivity|]. change (presum w3 [2; 0; 3] 2) with 2. change (presum w3 [2; 0; 3] 3) with 5. lia.
+  - intros H. apply (C08_threshold_interval Z w3 [2; 0; 3] 2 2%nat 3 w3_ok ltac:(lia)) in H.
+    destruct H as [_ H]. change (presum w3 [2; 0; 3] 2) with 2 in H. lia.
+Qed.
+
+(* ---- the union rule  S = eps + a.S + b.S  of Count/SampleParamsExample.v asked for size 3 with
+   k = 1 (one a): children as the constructor sees them *)
+Definition u_kids : list child := map (kid_at (ex_rule false) ex_tab 3) [1; 2; 4]%nat.
+Definition u_eps : list dict := [K1; K1; K1].
+Definition u_fixed : list dict := [[]; []; []].
+Definition u_extra : list (option dict) := [Some [(1, 1)]; Some [(1, 1)]; Some [(1, 1)]].
+Definition u_bs : list ubranch := union_branches [1] u_kids u_eps u_extra.
+Lemma u_extra_eq : union_extra u_eps u_fixed P_k1 = Ok u_extra.
+Proof. reflexivity. Qed.
+
+(* covers C08_union_weights_ok *)
+Example C08_union_weights_ok_nonvacuous : weights_ok (union_weight 3 P_k1) u_bs.
+Proof.
+  apply C08_union_weights_ok.
+  - intros b Hb. vm_compute in Hb. destruct Hb as [<-|[<-|[<-|[]]]]; unfold table_nonneg; simpl;
+      repeat (constructor; [simpl; lia|]); constructor.
+  - intros b q Hb. vm_compute in Hb. destruct Hb as [<-|[<-|[<-|[]]]]; simpl; intros E _; injection E as <-;
+      discriminate.
+Qed.
+
+(* covers C08_threshold_union: the weights are 0 (eps has no word of size 3), 1 (a.S: "abb") and
+   2 (b.S: "bab", "bba"); the total is the count 3 *)
+Example C08_threshold_union_nonvacuous :
+  Z.of_nat (length (filter (fun r => upicks 2 (union_pick [1] u_kids u_eps u_fixed 3 P_k1 r)) (py_range 1 (3 + 1)))) = 2 /\
+  (exists j t, union_pick [1] u_kids u_eps u_fixed 3 P_k1 2 = Ok (Z.of_nat j, t) /\ (j < 3)%nat) /\
+  union_pick [1] u_kids u_eps u_fixed 3 P_k1 4 = Err E_RUNTIME.
+Proof.
+  destruct (C08_threshold_union [1] u_kids u_eps u_fixed 3 P_k1 u_extra u_extra_eq
+              C08_union_weights_ok_nonvacuous) as (A & B & C).
+  change (total_weight (union_weight 3 P_k1) (union_branches [1] u_kids u_eps u_extra)) with 3 in *.
+  change (length (union_branches [1] u_kids u_eps u_extra)) with 3%nat in *.
+  split; [|split; [apply B; lia|apply C; lia]].
+  exact (A 2%nat (nth 2 u_bs (Build_ubranch (Build_child [] []) None [])) eq_refl).
+Qed.
+Example C08_threshold_union_picks :
+  map (union_pick [1] u_kids u_eps u_fixed 3 P_k1) [1; 2; 3; 4]
+  = [Ok (1, [1]); Ok (2, [1]); Ok (2, [1]); Err E_RUNTIME].
+Proof. vm_compute. reflexivity. Qed.
+
+(* covers C08_pick_dict_union *)
+Example C08_pick_dict_union_nonvacuous :
+  upicks 2 (union_pick [1] u_kids u_eps u_fixed 3 P_k1 2)
+  = dpicks 2 (union_pick_dict [1] u_kids u_eps u_fixed 3 P_k1 2) /\
+  dpicks 2 (union_pick_dict [1] u_kids u_eps u_fixed 3 P_k1 2) = true /\
+  dpicks 2 (union_pick_dict [1] u_kids u_eps u_fixed 3 P_k1 1) = false.
+Proof.
+  split; [exact (C08_pick_dict_union [1] u_kids u_eps u_fixed 3 P_k1 u_extra 2 2%nat u_extra_eq)|].
+  split; vm_compute; reflexivity.
+Qed.
+
+(* ---- a product  S x S  (pairs of words over {a, b}, k = number of a's in both) asked for size 2 with
+   k = 1: both children are class 0 of Count/SampleParamsExample.v as CartesianProduct sees it *)
+Definition pS : pchild := pkid (ex_rule false) ex_tab 2 (0%nat, K1).
+Definition p_kids : list pchild := [pS; pS].
+Definition p_comps : list (list vec) := prod_comps [1] [0; 0] p_kids [2; 1].
+Example p_comps_value :
+  p_comps = [[[0; 0]; [2; 1]]; [[0; 1]; [2; 0]]; [[1; 0]; [1; 1]]; [[1; 1]; [1; 0]]; [[2; 0]; [0; 1]]; [[2; 1]; [0; 0]]]
+  /\ map (prod_weight [1] p_kids) p_comps
+     = [Ok (Some 2); Ok (Some 0); Ok (Some 1); Ok (Some 1); Ok (Some 0); Ok (Some 2)].
+Proof. split; vm_compute; reflexivity. Qed.
+Lemma p_wok : weights_ok (prod_weight [1] p_kids) p_comps.
+Proof.
+  intros M HM. destruct p_comps_value as [E _]. rewrite E in HM.
+  destruct HM as [<-|[<-|[<-|[<-|[<-|[<-|[]]]]]]]; eexists; (split; [vm_compute; reflexivity|]);
+    intros w Ew; injection Ew as <-; lia.
+Qed.
+
+(* covers C08_threshold_product: six compositions with weights 2, 0, 1, 1, 0, 2 (total 6 = the 2 words
+   of length 2 with one a, cut at 3 places) *)
+Example C08_threshold_product_nonvacuous :
+  Z.of_nat (length (filter (fun r => picks 5 (walk (prod_weight [1] p_kids) r 0 0%nat p_comps)) (py_range 1 (6 + 1)))) = 2 /\
+  (exists j M toks, walk (prod_weight [1] p_kids) 4 0 0%nat p_comps = Ok (j, M) /\ nth_error p_comps j = Some M /\
+                    prod_pick [1] [0; 0] p_kids 2 P_k1 4 = Ok toks) /\
+  prod_pick [1] [0; 0] p_kids 2 P_k1 7 = Err E_RUNTIME.
+Proof.
+  destruct (C08_threshold_product [1] [0; 0] p_kids 2 P_k1 [1] ltac:(discriminate) eq_refl eq_refl p_wok)
+    as (A & B & C).
+  fold p_comps in A, B, C.
+  change (total_weight (prod_weight [1] p_kids) p_comps) with 6 in *.
+  split; [|split; [apply B; lia|apply C; lia]].
+  exact (A 5%nat [[2; 1]; [0; 0]] eq_refl).
+Qed.
+Example C08_threshold_product_picks :
+  map (prod_pick [1] [0; 0] p_kids 2 P_k1) [1; 2; 3; 4; 5; 6; 7]
+  = [Ok [(0, [0]); (2, [1])]; Ok [(0, [0]); (2, [1])]; Ok [(1, [0]); (1, [1])]; Ok [(1, [1]); (1, [0])];
+     Ok [(2, [1]); (0, [0])]; Ok [(2, [1]); (0, [0])]; Err E_RUNTIME].
+Proof. vm_compute. reflexivity. Qed.
+
+(* covers C08_pick_dict_product (a closed equation): both sides are a real pick on the draw 3 *)
+Example C08_pick_dict_product_nonvacuous :
+  prod_pick [1] [0; 0] p_kids 2 P_k1 3 =
+  match prod_pick_dict [1] [0; 0] p_kids 2 P_k1 3 with Ok ex => prod_tokens p_kids ex | Err e => Err e end
+  /\ prod_pick_dict [1] [0; 0] p_kids 2 P_k1 3 = Ok [(1, [(1, 0)]); (1, [(1, 1)])].
+Proof. split; [apply C08_pick_dict_product|vm_compute; reflexivity]. Qed.
+
+(* ---- 2. _valid_compositions: two children, one extra parameter (d = 2), (n, k) = (2, 1) *)
+Definition vc_mins : list vec := [[0; 0]; [0; 0]].
+Definition vc_maxs : list (list (option Z)) := [[None; None]; [None; None]].
+
+(* covers C08_valid_compositions_spec (Ex.valid_comps_params lists the six matrices) *)
+Example C08_valid_compositions_spec_nonvacuous :
+  (forall M, In M (valid_comps 2 [0; 0] vc_mins vc_maxs [2; 1]) <-> comp_ok 2 [0; 0] vc_mins vc_maxs [2; 1] M) /\
+  NoDup (valid_comps 2 [0; 0] vc_mins vc_maxs [2; 1]).
+Proof. apply C08_valid_compositions_spec. discriminate. Qed.
+(* ... the characterisation discriminates: a matrix with the wrong column sum is not enumerated *)
+Example C08_valid_compositions_spec_near_miss :
+  ~ comp_ok 2 [0; 0] vc_mins vc_maxs [2; 1] [[1; 0]; [1; 0]] /\
+  comp_ok 2 [0; 0] vc_mins vc_maxs [2; 1] [[1; 0]; [1; 1]].
+Proof.
+  destruct C08_valid_compositions_spec_nonvacuous as [H _]. split.
+  - intros X. apply H in X. vm_compute in X. repeat (destruct X as [X|X]; [discriminate X|]). exact X.
+  - apply H. vm_compute. tauto.
+Qed.
+
+(* covers C08_valid_compositions_complete: children's bounds  child 0 = an atom of size 1 with k = 1
+   (max declared), child 1 unbounded above; the split (1,1) + (2,0) of (3,1) is enumerated *)
+Example C08_valid_compositions_complete_nonvacuous :
+  In [[1; 1]; [2; 0]] (valid_comps 2 [1; 0] [[1; 1]; [0; 0]] [[Some 1; Some 1]; [None; None]] [3; 1]).
+Proof.
+  apply C08_valid_compositions_complete.
+  - discriminate.
+  - intros k Hk. destruct k as [|[|k]]; [vm_compute; discriminate|vm_compute; discriminate|lia].
+  - simpl. constructor; [|constructor; [|constructor]]; (split; [reflexivity|]); intros k Hk;
+      destruct k as [|[|k]]; try lia; simpl; (split; [unfold vget; simpl; lia|]); intros M E;
+      try discriminate E; injection E as <-; unfold vget; simpl; lia.
+  - intros k Hk. destruct k as [|[|k]]; [reflexivity|reflexivity|lia].
+Qed.
+
+(* covers C08_valid_compositions_get_terms: n = 4, three children with minima 1, 0, 1, the first an
+   atom (max 1) *)
+Example C08_valid_compositions_get_terms_nonvacuous :
+  (forall t, In (col1 t) (valid_comps 1 [2] (col1 [1; 0; 1]) (col1o [Some 1; None; None]) [4])
+             <-> In t (compositions 4 3 [1; 0; 1] [Some 1; None; None])) /\
+  (forall M, In M (valid_comps 1 [2] (col1 [1; 0; 1]) (col1o [Some 1; None; None]) [4]) -> M = col1 (sizes_of M)) /\
+  NoDup (valid_comps 1 [2] (col1 [1; 0; 1]) (col1o [Some 1; None; None]) [4]) /\
+  NoDup (compositions 4 3 [1; 0; 1] [Some 1; None; None]).
+Proof.
+  apply (C08_valid_compositions_get_terms 4 2 [1; 0; 1] [Some 1; None; None]).
+  - vm_compute. discriminate.
+  - reflexivity.
+  - repeat constructor; lia.
+  - vm_compute. discriminate.
+Qed.
+Example C08_valid_compositions_get_terms_value :
+  valid_comps 1 [2] (col1 [1; 0; 1]) (col1o [Some 1; None; None]) [4] = [[[1]; [0]; [3]]; [[1]; [1]; [2]]; [[1]; [2]; [1]]]
+  /\ compositions 4 3 [1; 0; 1] [Some 1; None; None] = [[1; 0; 3]; [1; 1; 2]; [1; 2; 1]].
+Proof. split; vm_compute; reflexivity. Qed.
+
+(* ---- 3. tree_eqb discriminates *)
+Example C08_tree_eqb_nonvacuous :
+  tree_eqb Ex.t_ab Ex.t_ab = true /\
+  tree_eqb Ex.t_ab (UNode 0 2 (PNode 4 [Leaf 5; UNode 0 0 (Leaf 1)])) = false /\
+  Ex.t_ab <> UNode 0 2 (PNode 4 [Leaf 5; UNode 0 0 (Leaf 1)]).
+Proof.
+  split; [apply C08_tree_eqb; reflexivity|]. split; [reflexivity|].
+  intros E. apply C08_tree_eqb in E. discriminate E.
+Qed.
+
+(* ---- 3. uniformity without parameters: all words over {a, b} (module Ex above), the word "ab" *)
+(* covers C08_uniform *)
+Example C08_uniform_nonvacuous :
+  (prob (tree_eqb Ex.t_ab) (spec_sample Ex.rule_of Ex.cnt 10 0 2) == 1 / inject_Z 4)%Q.
+Proof.
+  destruct Ex.hypotheses_hold as (H1 & H2 & H3 & H4 & H5 & H6 & H7 & W & _).
+  apply (C08_uniform Ex.rule_of Ex.cnt H1 H2 H3 H4 H5 H6 H7 Ex.t_ab 0%nat 10%nat W). simpl. lia.
+Qed.
+
+(* covers C08_counted *)
+Example C08_counted_nonvacuous : 1 <= Ex.cnt 0 2.
+Proof.
+  destruct Ex.hypotheses_hold as (H1 & H2 & H3 & H4 & H5 & H6 & H7 & W & _).
+  exact (C08_counted Ex.rule_of Ex.cnt H1 H2 H3 H4 H5 H6 H7 Ex.t_ab 0%nat W).
+Qed.
+
+(* covers C08_support: asked for size 3, "ab" (size 2) is never returned — although words of size 3
+   are (the draw sequence below returns one) *)
+Example C08_support_nonvacuous :
+  (prob (tree_eqb Ex.t_ab) (sample Ex.rule_of Ex.cnt 10 0 3) == 0)%Q /\
+  exists t, fst (fst (run (sample Ex.rule_of Ex.cnt 10 0 3) [1; 1; 3; 1; 2; 1; 1; 0; 0; 0; 0; 0; 0; 0])) = Ok t.
+Proof.
+  split; [apply C08_support; vm_compute; discriminate|].
+  eexists. vm_compute. reflexivity.
+Qed.
+
+(* ---- 4. covers C08_reject_empty: the class a.S has no word of size 0 *)
+Example C08_reject_empty_nonvacuous :
+  spec_sample Ex.rule_of Ex.cnt 10 2 0 = Fail E_INVALID_OP /\
+  run (spec_sample Ex.rule_of Ex.cnt 10 2 0) [1; 2; 3] = (Err E_INVALID_OP, [], [1; 2; 3]).
+Proof. apply C08_reject_empty. vm_compute. discriminate. Qed.
+
+(* ---- 5. equivalence steps: the specification of module Ex with two more classes on top,
+   7 -> 6 -> 0 (one-child unions: an EquivalencePathRule 7 ~ 0 collapses the chain) *)
+Definition eq_rule (c : nat) : cls :=
+  nth c (Ex.table ++ [Ex.mk K_UNION 0 false [0%nat]; Ex.mk K_UNION 0 false [6%nat]]) (Ex.mk K_EMPTY 0 false []).
+Definition eq_cnt (c : nat) (n : Z) : Z := match c with 6%nat | 7%nat => Ex.cnt 0 n | _ => Ex.cnt c n end.
+Lemma eq_nonneg : forall c n, 0 <= eq_cnt c n.
+Proof.
+  destruct Ex.hypotheses_hold as (H1 & _). intros c n.
+  do 8 (destruct c as [|c]; [unfold eq_cnt; apply H1|]). unfold eq_cnt. apply H1.
+Qed.
+Lemma eq_union : forall c n, c_kind (eq_rule c) = K_UNION ->
+  eq_cnt c n = py_sum (map (fun ci => eq_cnt ci n) (c_kids (eq_rule c))).
+Proof.
+  destruct Ex.hypotheses_hold as (_ & _ & H3 & _). intros c n.
+  destruct c as [|[|[|[|[|[|[|[|c]]]]]]]]; intros H; try discriminate H.
+  - exact (H3 0%nat n eq_refl).
+  - change (Ex.cnt 0 n = Ex.cnt 0 n + 0). lia.
+  - change (Ex.cnt 0 n = Ex.cnt 0 n + 0). lia.
+  - destruct c; discriminate H.
+Qed.
+
+(* covers C08_equivalence_step *)
+Example C08_equivalence_step_nonvacuous :
+  eq_cnt 6 2 = eq_cnt 0 2 /\
+  (prob (tree_eqb (UNode 6 0 Ex.t_ab)) (sample eq_rule eq_cnt 11 6 2)
+   == prob (tree_eqb Ex.t_ab) (sample eq_rule eq_cnt 10 0 2))%Q.
+Proof.
+  apply (C08_equivalence_step eq_rule eq_cnt eq_nonneg eq_union 10%nat 6%nat 0%nat 2 Ex.t_ab eq_refl eq_refl).
+  vm_compute. discriminate.
+Qed.
+
+(* covers C08_equivalence_path: the chain 7 -> 6 -> 0 *)
+Example C08_equivalence_path_nonvacuous :
+  eq_cnt 7 2 = eq_cnt 0 2 /\
+  (prob (tree_eqb (UNode 7 0 (UNode 6 0 Ex.t_ab))) (sample eq_rule eq_cnt 12 7 2)
+   == prob (tree_eqb Ex.t_ab) (sample eq_rule eq_cnt 10 0 2))%Q.
+Proof.
+  apply (C08_equivalence_path eq_rule eq_cnt eq_nonneg eq_union [6; 0]%nat 7%nat 0%nat 10%nat 2 Ex.t_ab).
+  - repeat split.
+  - vm_compute. discriminate.
+Qed.
+(* ... and the common value is 1/4, not 0 *)
+Example C08_equivalence_path_value :
+  (prob (tree_eqb (UNode 7 0 (UNode 6 0 Ex.t_ab))) (sample eq_rule eq_cnt 12 7 2) == 1 / inject_Z 4)%Q.
+Proof. vm_compute. reflexivity. Qed.
+
+(* ---- 6. covers C08_uniform_true_counts: T = the true counts of module Ex, ANY table U satisfying the
+   recurrences is forced to them on the root, and "ab" has probability 1/4 under the sampler driven by U *)
+Example C08_uniform_true_counts_nonvacuous :
+  forall U : nat -> Z -> Z,
+  (forall c n, 0 <= U c n) ->
+  (forall c, c_kind (Ex.rule_of c) = K_ATOM -> U c (cmin Ex.rule_of c) = 1) ->
+  (forall c n, c_kind (Ex.rule_of c) = K_UNION ->
+     U c n = py_sum (map (fun ci => U ci n) (c_kids (Ex.rule_of c)))) ->
+  (forall c n, c_kind (Ex.rule_of c) = K_PRODUCT ->
+     U c n = py_sum (map (prod_counts U (c_kids (Ex.rule_of c)))
+                         (compositions n (zlen (c_kids (Ex.rule_of c)))
+                                       (map (cmin Ex.rule_of) (c_kids (Ex.rule_of c)))
+                                       (map (cmax Ex.rule_of) (c_kids (Ex.rule_of c)))))) ->
+  (forall c m, U c m <> 0 -> cmin Ex.rule_of c <= m /\ (c_atom (Ex.rule_of c) = true -> m <= cmin Ex.rule_of c)) ->
+  U 0%nat 3 = 8 /\
+  (prob (tree_eqb Ex.t_ab) (spec_sample Ex.rule_of U 10 0 2) == 1 / inject_Z 4)%Q.
+Proof.
+  intros U U1 U2 U3 U4 U6.
+  destruct Ex.hypotheses_hold as (_ & _ & _ & _ & H5 & _ & H7 & W & _).
+  destruct Ex.true_counts_hypotheses_hold as (A1 & A2 & A3 & A4 & A5).
+  destruct (C08_uniform_true_counts Ex.rule_of U Ex.cnt U1 U2 U3 U4 H5 U6 H7 A1 A2 A3 Ex.keys 0%nat A4 A5)
+    as [E P].
+  split; [rewrite E by lia; reflexivity|].
+  exact (P Ex.t_ab 10%nat W ltac:(simpl; lia)).
+Qed.
+(* the hypotheses on U are satisfiable: U := the true counts *)
+Example C08_uniform_true_counts_hyps_satisfiable :
+  Ex.cnt 0%nat 3 = 8 /\
+  (prob (tree_eqb Ex.t_ab) (spec_sample Ex.rule_of Ex.cnt 10 0 2) == 1 / inject_Z 4)%Q.
+Proof.
+  destruct Ex.hypotheses_hold as (H1 & H2 & H3 & H4 & _ & H6 & _).
+  exact (C08_uniform_true_counts_nonvacuous Ex.cnt H1 H2 H3 H4 H6).
+Qed.
+
+(* covers C08_rules_local: the product rule a.S (class 2) and the union rule (class 0) *)
+Example C08_rules_local_nonvacuous :
+  exists r0 r2, c08_rule Ex.rule_of 0 = Some r0 /\ c08_rule Ex.rule_of 2 = Some r2 /\
+                r_kids Z r0 = [(1%nat, 0); (2%nat, 0); (4%nat, 0)] /\ r_kids Z r2 = [(3%nat, 0); (0%nat, 1)] /\
+                local Z r0 /\ local Z r2.
+Proof.
+  eexists. eexists. split; [reflexivity|]. split; [reflexivity|]. split; [reflexivity|]. split; [reflexivity|].
+  split; [apply (C08_rules_local Ex.rule_of 0)|apply (C08_rules_local Ex.rule_of 2)]; reflexivity.
+Qed.
+
+(* ---- 7. with extra parameters: the words over {a, b} with k = number of a's
+   (Count/SampleParamsExample.v, module ExParams above) *)
+(* covers C08_uniform_params (ExParams.ab_by_theorem and ExMerge.merged_by_theorem apply it too) *)
+Example C08_uniform_params_nonvacuous :
+  (prob (tree_eqb t_ab) (pspec_sample (ex_rule false) ex_tab 10 0 2 P_k1) == 1 / inject_Z 2)%Q.
+Proof.
+  destruct ExParams.hypotheses_hold as (H1 & H2 & H3 & H4 & H5 & H6 & W & S & T & C & D).
+  pose proof (C08_uniform_params (ex_rule false) ex_tab H1 H2 H3 H4 H5 H6 t_ab 0%nat 10%nat P_k1 W
+                ltac:(simpl; lia)) as X.
+  rewrite S, T, C in X. exact (X D).
+Qed.
+
+(* covers C08_counted_params *)
+Example C08_counted_params_nonvacuous : 1 <= pcnt ex_tab 0 2 [1].
+Proof.
+  destruct ExParams.hypotheses_hold as (H1 & H2 & H3 & H4 & H5 & H6 & W & S & T & C & D).
+  pose proof (C08_counted_params (ex_rule false) ex_tab H1 H2 H3 H4 H5 H6 t_ab 0%nat W) as X.
+  rewrite S, T in X. exact X.
+Qed.
+
+(* covers C08_support_params: asked for (2, k = 1), the word "bb" (size 2, k = 0) is never returned *)
+Definition t_bb : tree := UNode 0 2 (PNode 4 [Leaf 5; t_b_S]).
+Example C08_support_params_nonvacuous :
+  ptsize (ex_rule false) t_bb = 2 /\ tpar (ex_rule false) t_bb = [0] /\
+  (prob (tree_eqb t_bb) (psample (ex_rule false) ex_tab 10 0 2 P_k1) == 0)%Q.
+Proof.
+  destruct ExParams.hypotheses_hold as (H1 & H2 & H3 & H4 & H5 & H6 & W & S & T & C & D).
+  split; [reflexivity|]. split; [reflexivity|].
+  apply (C08_support_params (ex_rule false) ex_tab H1 H2 H3 H4 H5 10%nat 0%nat 2 P_k1 [1] t_bb D).
+  - rewrite C. lia.
+  - right. vm_compute. discriminate.
+Qed.
+
+(* covers C08_union_weights_params and C08_union_total_params: the union rule of class 0 at (3, k = 1) *)
+Example C08_union_weights_params_nonvacuous :
+  exists extra,
+    union_extra (pk_eps (ex_rule false 0)) (pk_fixed (ex_rule false 0)) P_k1 = Ok extra /\
+    let bs := union_branches (pars (ex_rule false) 0) (map (kid_at (ex_rule false) ex_tab 3) (pk_kids (ex_rule false 0)))
+                             (pk_eps (ex_rule false 0)) extra in
+    weights_ok (union_weight 3 P_k1) bs /\ total_weight (union_weight 3 P_k1) bs <= pcnt ex_tab 0 3 [1].
+Proof.
+  destruct ExParams.hypotheses_hold as (H1 & H2 & H3 & H4 & H5 & H6 & W & S & T & C & D).
+  exact (C08_union_weights_params (ex_rule false) ex_tab 0%nat P_k1 [1] 3 H1 (H4 0%nat eq_refl) D).
+Qed.
+Example C08_union_total_params_nonvacuous :
+  exists extra,
+    union_extra (pk_eps (ex_rule false 0)) (pk_fixed (ex_rule false 0)) P_k1 = Ok extra /\
+    let bs := union_branches (pars (ex_rule false) 0) (map (kid_at (ex_rule false) ex_tab 3) (pk_kids (ex_rule false 0)))
+                             (pk_eps (ex_rule false 0)) extra in
+    weights_ok (union_weight 3 P_k1) bs /\ total_weight (union_weight 3 P_k1) bs = pcnt ex_tab 0 3 [1].
+Proof.
+  destruct ExParams.hypotheses_hold as (H1 & H2 & H3 & H4 & H5 & H6 & W & S & T & C & D).
+  exact (C08_union_total_params (ex_rule false) ex_tab 0%nat P_k1 [1] 3 H1 ExParams.arity_holds
+           (H4 0%nat eq_refl) (H6 0%nat eq_refl) D).
+Qed.
+(* the witness: every child gets {k: 1}; the weights are 0, 1, 2 and the count is 3 *)
+Example C08_union_total_params_value :
+  union_extra (pk_eps (ex_rule false 0)) (pk_fixed (ex_rule false 0)) P_k1 = Ok [Some [(1, 1)]; Some [(1, 1)]; Some [(1, 1)]] /\
+  map (wz (union_weight 3 P_k1))
+      (union_branches [1] (map (kid_at (ex_rule false) ex_tab 3) [1; 2; 4]%nat) [K1; K1; K1]
+                      [Some [(1, 1)]; Some [(1, 1)]; Some [(1, 1)]]) = [0; 1; 2] /\
+  pcnt ex_tab 0 3 [1] = 3.
+Proof. repeat split; vm_compute; reflexivity. Qed.
+
+(* covers C08_draws_return_union_params *)
+Example C08_draws_return_union_params_nonvacuous :
+  (forall r, 1 <= r <= 3 ->
+     exists i q, union_pick_dict [1] (map (kid_at (ex_rule false) ex_tab 3) [1; 2; 4]%nat)
+                                 [K1; K1; K1] [[]; []; []] 3 P_k1 r = Ok (i, q)) /\
+  (forall r, 3 < r ->
+     union_pick_dict [1] (map (kid_at (ex_rule false) ex_tab 3) [1; 2; 4]%nat)
+                     [K1; K1; K1] [[]; []; []] 3 P_k1 r = Err E_RUNTIME).
+Proof.
+  destruct ExParams.hypotheses_hold as (H1 & H2 & H3 & H4 & H5 & H6 & W & S & T & C & D).
+  exact (C08_draws_return_union_params (ex_rule false) ex_tab 0%nat P_k1 [1] 3 H1 ExParams.arity_holds
+           (H4 0%nat eq_refl) (H6 0%nat eq_refl) D).
+Qed.
+
+(* covers C08_path_dictionary (a closed equation): two steps, the second drops a statistic *)
+Example C08_path_dictionary_nonvacuous :
+  path_dict [1; 2] [[(1, 5); (2, 6)]; [(5, 7)]] = fold_left dict_compose [[(1, 5); (2, 6)]; [(5, 7)]] (id_dict [1; 2])
+  /\ path_dict [1; 2] [[(1, 5); (2, 6)]; [(5, 7)]] = [(1, 7)].
+Proof. split; [apply C08_path_dictionary|reflexivity]. Qed.
+
+(* covers C08_path_fixed_determined: parameter 7 of the last class is a value of the dictionary (left
+   branch), parameter 8 is not and is fixed to 0 (right branch) *)
+Example C08_path_fixed_determined_nonvacuous :
+  (In 7 (map snd [(1, 7)]) \/ In 7 (map fst (path_fixed [7; 8] [(1, 7)]))) /\
+  (In 8 (map snd [(1, 7)]) \/ In 8 (map fst (path_fixed [7; 8] [(1, 7)]))) /\
+  path_fixed [7; 8] [(1, 7)] = [(8, 0)].
+Proof.
+  split; [apply (C08_path_fixed_determined [7; 8]); simpl; tauto|].
+  split; [apply (C08_path_fixed_determined [7; 8]); simpl; tauto|reflexivity].
+Qed.
+
+(* covers C08_path_fixed_honest, both ways.  (1) the root tracking nothing over class 0 (the refuted
+   variant): fixed_honest fails, so some word has k <> 0 ... *)
+Example C08_path_fixed_honest_nonvacuous_false :
+  ~ (forall k, In k (pars (ex_rule true) 0) -> ~ In k (map snd (@nil (Z * Z))) ->
+     forall n q, pcnt ex_tab 0 n q <> 0 -> dget (combine (pars (ex_rule true) 0) q) k = Some 0).
+Proof.
+  intros H. apply ex_not_honest.
+  apply (C08_path_fixed_honest (ex_rule true) ex_tab 6%nat 0%nat [] eq_refl eq_refl eq_refl). exact H.
+Qed.
+(* (2) a class tracking k over class 7 of Count/SampleParamsExample2.v (statistics k1 = k2 = #a,
+   k3 = #c identically 0) with the dictionary {k: k1, k: k2}: k3 is fixed to 0, honestly *)
+Definition ex3_rule (c : nat) : pcls :=
+  match c with
+  | 8%nat => {| pk_kind := K_UNION; pk_min := 0; pk_atom := false; pk_kids := [7%nat]; pk_params := [1];
+                pk_minval := [(1, 0)]; pk_eps := [[(1, 1); (1, 2)]]; pk_fixed := [[(3, 0)]] |}
+  | _ => ex2_rule c
+  end.
+Example C08_path_fixed_honest_nonvacuous_true :
+  path_fixed (pars ex3_rule 7) [(1, 1); (1, 2)] = [(3, 0)] /\ fixed_honest ex3_rule ex2_tab 8.
+Proof.
+  split; [reflexivity|].
+  apply (C08_path_fixed_honest ex3_rule ex2_tab 8%nat 7%nat [(1, 1); (1, 2)] eq_refl eq_refl eq_refl).
+  intros k Hk Hn n q Hq. destruct (ex2_pcnt7 n q Hq) as (x & -> & _).
+  simpl in Hk. destruct Hk as [<-|[<-|[<-|[]]]]; [exfalso; apply Hn; simpl; tauto|exfalso; apply Hn; simpl; tauto|].
+  reflexivity.
+Qed.
+
+(* covers C08_reject_empty_params: no word of length 2 has five a's *)
+Example C08_reject_empty_params_nonvacuous :
+  pspec_sample (ex_rule false) ex_tab 10 0 2 [(1, 5)] = Fail E_INVALID_OP /\
+  run (pspec_sample (ex_rule false) ex_tab 10 0 2 [(1, 5)]) [1; 2] = (Err E_INVALID_OP, [], [1; 2]).
+Proof. apply (C08_reject_empty_params (ex_rule false) ex_tab 10 0%nat 2 [(1, 5)] 0); [reflexivity|lia]. Qed.
+
+(* ---- a product rule with SEVERAL compositions: on top of the specification of
+   Count/SampleParamsExample.v,  8 = X = eps + a  and  9 = Y = X x X  (pairs of words of length <= 1,
+   k = number of a's in both) *)
+Definition pr_rule (c : nat) : pcls :=
+  match c with
+  | 8%nat => mkp K_UNION 0 false [1; 3]%nat 0 [K1; K1] [[]; []]
+  | 9%nat => mkp K_PRODUCT 0 false [8; 8]%nat 0 [K1; K1] []
+  | _ => ex_rule false c
+  end.
+Definition tabX (n : Z) : terms := if n =? 0 then [([0], 1)] else if n =? 1 then [([1], 1)] else [].
+Definition tabY (n : Z) : terms :=
+  if n =? 0 then [([0], 1)] else if n =? 1 then [([1], 2)] else if n =? 2 then [([2], 1)] else [].
+Definition pr_tab (c : nat) (n : Z) : terms :=
+  match c with 8%nat => tabX n | 9%nat => tabY n | _ => ex_tab c n end.
+
+Ltac cases10 c := destruct c as [|[|[|[|[|[|[|[|[|[|c]]]]]]]]]].
+
+Lemma one_entry_nonzero (a v : Z) (q : params) : tget [([a], v)] q <> 0 -> q = [a].
+Proof. cbn [tget fst snd]. destruct (params_eqb [a] q) eqn:E; [|lia]. apply params_eqb_eq in E. auto. Qed.
+Lemma tabX_nonzero m q : tget (tabX m) q <> 0 -> (m = 0 /\ q = [0]) \/ (m = 1 /\ q = [1]).
+Proof.
+  unfold tabX. destruct (Z.eqb_spec m 0) as [->|H0]; [intros H; apply one_entry_nonzero in H; auto|].
+  destruct (Z.eqb_spec m 1) as [->|H1]; [intros H; apply one_entry_nonzero in H; auto|]. simpl. congruence.
+Qed.
+Lemma tabY_nonzero m q : tget (tabY m) q <> 0 -> (m = 0 /\ q = [0]) \/ (m = 1 /\ q = [1]) \/ (m = 2 /\ q = [2]).
+Proof.
+  unfold tabY. destruct (Z.eqb_spec m 0) as [->|H0]; [intros H; apply one_entry_nonzero in H; auto|].
+  destruct (Z.eqb_spec m 1) as [->|H1]; [intros H; apply one_entry_nonzero in H; auto|].
+  destruct (Z.eqb_spec m 2) as [->|H2]; [intros H; apply one_entry_nonzero in H; auto|]. simpl. congruence.
+Qed.
+
+Lemma pr_tables_ok : tables_ok pr_rule pr_tab.
+Proof.
+  destruct (ex_tables_ok false) as (H1 & H2 & H3). split; [|split].
+  - intros c. cases10 c; try (match goal with |- NoDup (pars pr_rule ?k) => exact (H1 k) end);
+      unfold pars; simpl; repeat constructor; simpl; tauto.
+  - intros c n. cases10 c; try (match goal with |- NoDup (map fst (pr_tab ?k n)) => exact (H2 k n) end);
+      simpl; unfold tabX, tabY; repeat match goal with |- context [if ?b then _ else _] => destruct b end;
+      simpl; repeat constructor; simpl; tauto.
+  - intros c n. cases10 c; try (match goal with |- nonneg (pr_tab ?k n) => exact (H3 k n) end);
+      simpl; unfold tabX, tabY; repeat match goal with |- context [if ?b then _ else _] => destruct b end;
+      first [apply nonneg_nil|apply nonneg_single; lia].
+Qed.
+
+Lemma pr_contract_ok : contract_ok pr_rule pr_tab.
+Proof.
+  destruct (ex_contract_ok false) as (H1 & H2). split.
+  - intros c. cases10 c; try (match goal with |- 0 <= pmin pr_rule ?k => exact (H1 k) end); unfold pmin; simpl; lia.
+  - intros c m q. cases10 c; try (match goal with |- pcnt pr_tab ?k m q <> 0 -> _ => exact (H2 k m q) end).
+    + intros H. unfold pmin, pars, mval, minval_of. simpl.
+      destruct (tabX_nonzero m q H) as [[-> ->]|[-> ->]]; (split; [lia|]); (split; [discriminate|]);
+        intros j Hj; (destruct j; [|lia]); simpl; (split; [lia|discriminate]).
+    + intros H. unfold pmin, pars, mval, minval_of. simpl.
+      destruct (tabY_nonzero m q H) as [[-> ->]|[[-> ->]|[-> ->]]]; (split; [lia|]); (split; [discriminate|]);
+        intros j Hj; (destruct j; [|lia]); simpl; (split; [lia|discriminate]).
+Qed.
+
+Lemma pr_atoms_ok c : pk_kind (pr_rule c) = K_ATOM -> atom_ok pr_rule pr_tab c.
+Proof.
+  cases10 c; try (match goal with |- _ -> atom_ok pr_rule pr_tab ?k => exact (ex_atoms_ok false k) end);
+    simpl; discriminate.
+Qed.
+
+Lemma K1_child_ok3 c ci : pars pr_rule c = [1] -> pars pr_rule ci = [1] -> ep_ok pr_rule c (ci, K1).
+Proof.
+  intros Hc Hi. unfold ep_ok, wf_dict. simpl. rewrite Hc, Hi.
+  assert (N1 : NoDup [1]) by (constructor; [intros []|constructor]).
+  split; [split; [exact N1|split; [exact N1|split; [exact N1|]]]|].
+  - intros a b [E|[]]. injection E as <- <-. left. reflexivity.
+  - intros a b [E|[]]. injection E as <- <-. left. reflexivity.
+Qed.
+Lemma K1_union_child_ok3 c ci : pars pr_rule c = [1] -> pars pr_rule ci = [1] ->
+  union_child_ok pr_rule c (ci, K1, []).
+Proof.
+  intros Hc Hi. split; [apply K1_child_ok3; assumption|]. split; [constructor|]. split; [intros k []|].
+  simpl. rewrite Hi. intros cv [<-|[]]. left. left. reflexivity.
+Qed.
+Lemma K1_prod_child_ok3 c ci : pars pr_rule c = [1] -> pars pr_rule ci = [1] ->
+  ep_ok pr_rule c (ci, K1) /\ (forall cv, In cv (pars pr_rule (fst (ci, K1))) -> In cv (map snd (snd (ci, K1)))).
+Proof.
+  intros Hc Hi. split; [apply K1_child_ok3; assumption|]. simpl. rewrite Hi. intros cv [<-|[]]. left. reflexivity.
+Qed.
+
+Lemma pr_union0 : union_ok pr_rule pr_tab 0.
+Proof.
+  destruct (ex_union0 false) as (L1 & L2 & _ & Ht).
+  split; [exact L1|]. split; [exact L2|]. split; [|exact Ht].
+  change (kid_eps_fixed pr_rule 0) with [(1%nat, K1, @nil (Z * Z)); (2%nat, K1, []); (4%nat, K1, [])].
+  constructor; [apply K1_union_child_ok3; reflexivity|].
+  constructor; [apply K1_union_child_ok3; reflexivity|].
+  constructor; [apply K1_union_child_ok3; reflexivity|constructor].
+Qed.
+
+Lemma pr_union8 : union_ok pr_rule pr_tab 8.
+Proof.
+  split; [reflexivity|]. split; [reflexivity|]. split.
+  - change (kid_eps_fixed pr_rule 8) with [(1%nat, K1, @nil (Z * Z)); (3%nat, K1, [])].
+    constructor; [apply K1_union_child_ok3; reflexivity|].
+    constructor; [apply K1_union_child_ok3; reflexivity|constructor].
+  - intros n q. change (cmaps pr_rule 8) with [f1; f1].
+    change (map (fun ci : nat => pr_tab ci n) (pk_kids (pr_rule 8))) with [ex_tab 1 n; ex_tab 3 n].
+    unfold union_table. cbn [map2 concat]. rewrite app_nil_r.
+    change (pr_tab 8 n) with (tabX n). unfold tabX. cbn [ex_tab].
+    destruct (Z.eqb_spec n 0) as [->|H0]; [reflexivity|].
+    destruct (Z.eqb_spec n 1) as [->|H1]; reflexivity.
+Qed.
+
+Lemma pr_product_old c (a : nat) : (c = 2%nat /\ a = 3%nat) \/ (c = 4%nat /\ a = 5%nat) -> product_ok pr_rule pr_tab c.
+Proof.
+  intros H.
+  assert (Hold : product_ok (ex_rule false) ex_tab c).
+  { destruct H as [[-> ->]|[-> ->]]; [apply (ex_product false 2 3 1)|apply (ex_product false 4 5 0)]; tauto. }
+  destruct H as [[-> ->]|[-> ->]]; destruct Hold as (A & B & _ & D & E);
+    (split; [exact A|]); (split; [exact B|]); (split; [|split; [exact D|exact E]]).
+  - change (kid_eps pr_rule 2) with [(3%nat, K1); (0%nat, K1)].
+    constructor; [apply K1_prod_child_ok3; reflexivity|]. constructor; [apply K1_prod_child_ok3; reflexivity|constructor].
+  - change (kid_eps pr_rule 4) with [(5%nat, K1); (0%nat, K1)].
+    constructor; [apply K1_prod_child_ok3; reflexivity|]. constructor; [apply K1_prod_child_ok3; reflexivity|constructor].
+Qed.
+
+(* the table CartesianProduct.get_terms builds for X x X is tabY *)
+Lemma pr_product9_table n : teq (tabY n) (product_table [f1; f1] [0; 0] [None; None] [tabX; tabX] n).
+Proof.
+  intros q.
+  destruct (Z.eq_dec n 0) as [->|N0].
+  { change (product_table [f1; f1] [0; 0] [None; None] [tabX; tabX] 0) with [([0], 1)]. reflexivity. }
+  destruct (Z.eq_dec n 1) as [->|N1].
+  { change (product_table [f1; f1] [0; 0] [None; None] [tabX; tabX] 1) with [([1], 1); ([1], 1)].
+    change (tabY 1) with [([1], 2)]. cbn [tget fst snd]. destruct (params_eqb [1] q); lia. }
+  destruct (Z.eq_dec n 2) as [->|N2].
+  { change (product_table [f1; f1] [0; 0] [None; None] [tabX; tabX] 2) with [([2], 1)]. reflexivity. }
+  assert (E : tabY n = []).
+  { unfold tabY. destruct (Z.eqb_spec n 0); [lia|]. destruct (Z.eqb_spec n 1); [lia|].
+    destruct (Z.eqb_spec n 2); [lia|reflexivity]. }
+  rewrite E. rewrite product_table_tget. symmetry. apply zsum_zero. intros t Hin.
+  apply compositions_sound in Hin; [|reflexivity|reflexivity].
+  destruct Hin as (Hz & Hs & Hle & _).
+  destruct t as [|a [|b [|c t]]]; try (unfold zlen in Hz; simpl in Hz; lia).
+  rewrite !py_sum_cons in Hs. change (py_sum []) with 0 in Hs.
+  unfold comp_table, tabs_at. cbn [map2]. unfold tabX.
+  destruct (Z.eqb_spec a 0); destruct (Z.eqb_spec a 1); destruct (Z.eqb_spec b 0); destruct (Z.eqb_spec b 1);
+    try lia; reflexivity.
+Qed.
+
+Lemma pr_product9 : product_ok pr_rule pr_tab 9.
+Proof.
+  split; [discriminate|]. split; [reflexivity|]. split; [|split].
+  - change (kid_eps pr_rule 9) with [(8%nat, K1); (8%nat, K1)].
+    constructor; [apply K1_prod_child_ok3; reflexivity|]. constructor; [apply K1_prod_child_ok3; reflexivity|constructor].
+  - intros k Hk. change (length (pars pr_rule 9)) with 1%nat in Hk.
+    destruct k as [|[|k]]; try lia; vm_compute; discriminate.
+  - intros n. exact (pr_product9_table n).
+Qed.
+
+Lemma pr_unions_ok c : pk_kind (pr_rule c) = K_UNION -> union_ok pr_rule pr_tab c.
+Proof. cases10 c; simpl; intros Hk; try discriminate Hk; [exact pr_union0|exact pr_union8]. Qed.
+Lemma pr_products_ok c : pk_kind (pr_rule c) = K_PRODUCT -> product_ok pr_rule pr_tab c.
+Proof.
+  cases10 c; simpl; intros Hk; try discriminate Hk.
+  - apply (pr_product_old 2 3). tauto.
+  - apply (pr_product_old 4 5). tauto.
+  - exact pr_product9.
+Qed.
+Lemma pr_honest c : pk_kind (pr_rule c) = K_UNION -> fixed_honest pr_rule pr_tab c.
+Proof.
+  cases10 c; simpl; intros Hk; try discriminate Hk.
+  - intros d Hd k v Hin. simpl in Hd. destruct Hd as [<-|[<-|[<-|[]]]]; destruct Hin.
+  - intros d Hd k v Hin. simpl in Hd. destruct Hd as [<-|[<-|[]]]; destruct Hin.
+Qed.
+Lemma pr_arity_ok : arity_ok pr_rule pr_tab.
+Proof.
+  intros c n q. cases10 c; try (match goal with |- pcnt pr_tab ?k n q <> 0 -> _ => exact (ex_arity_ok false k n q) end).
+  - intros H. destruct (tabX_nonzero n q H) as [[_ ->]|[_ ->]]; reflexivity.
+  - intros H. destruct (tabY_nonzero n q H) as [[_ ->]|[[_ ->]|[_ ->]]]; reflexivity.
+Qed.
+
+(* the pair ("a", "") as a parse tree of Y: size 1, k = 1; the other such pair is ("", "a") *)
+Definition t_a_eps : tree := PNode 9 [UNode 8 1 (Leaf 3); UNode 8 0 (Leaf 1)].
+Lemma pr_tree :
+  pwf pr_rule t_a_eps 9 /\ ptsize pr_rule t_a_eps = 1 /\ tpar pr_rule t_a_eps = [1] /\
+  pcnt pr_tab 9 1 [1] = 2 /\ dict_for pr_rule 9 P_k1 [1].
+Proof.
+  split; [|split; [|split; [|split]]]; try reflexivity.
+  - cbv [pwf t_a_eps pr_rule ex_rule mkp pk_kind pk_kids all2 nth_error].
+    repeat match goal with
+           | |- _ /\ _ => split
+           | |- exists _, _ => eexists
+           | |- True => exact I
+           | |- _ = _ => reflexivity
+           end.
+  - split; [constructor; [intros []|constructor]|]. split; [intros k [<-|[]]; left; reflexivity|reflexivity].
+Qed.
+
+(* C08_uniform_params on a specification with a several-composition product *)
+Example C08_uniform_params_nonvacuous_pairs :
+  (prob (tree_eqb t_a_eps) (pspec_sample pr_rule pr_tab 10 9 1 P_k1) == 1 / inject_Z 2)%Q.
+Proof.
+  destruct pr_tree as (W & S & T & C & D).
+  pose proof (C08_uniform_params pr_rule pr_tab pr_tables_ok pr_contract_ok pr_atoms_ok pr_unions_ok
+                pr_products_ok pr_honest t_a_eps 9%nat 10%nat P_k1 W ltac:(simpl; lia)) as X.
+  rewrite S, T, C in X. exact (X D).
+Qed.
+Example C08_uniform_params_pairs_by_computation :
+  (prob (tree_eqb t_a_eps) (pspec_sample pr_rule pr_tab 10 9 1 P_k1) == 1 / inject_Z 2)%Q.
+Proof. vm_compute. reflexivity. Qed.
+
+(* covers C08_product_weights_params and C08_product_total_params: the rule Y = X x X at (1, k = 1):
+   four compositions, weights 1, 0, 0, 1 *)
+Example C08_product_weights_params_nonvacuous :
+  let kids := map (pkid pr_rule pr_tab 1) (kid_eps pr_rule 9) in
+  let comps := prod_comps (pars pr_rule 9) (pmins_of (pr_rule 9)) kids [1; 1] in
+  weights_ok (prod_weight (pars pr_rule 9) kids) comps /\
+  total_weight (prod_weight (pars pr_rule 9) kids) comps <= pcnt pr_tab 9 1 [1].
+Proof.
+  exact (C08_product_weights_params pr_rule pr_tab 9%nat [1] 1 pr_tables_ok pr_contract_ok pr_product9 eq_refl).
+Qed.
+Example C08_product_total_params_nonvacuous :
+  let kids := map (pkid pr_rule pr_tab 1) (kid_eps pr_rule 9) in
+  let comps := prod_comps (pars pr_rule 9) (pmins_of (pr_rule 9)) kids [1; 1] in
+  total_weight (prod_weight (pars pr_rule 9) kids) comps = pcnt pr_tab 9 1 [1].
+Proof.
+  exact (C08_product_total_params pr_rule pr_tab 9%nat [1] 1 pr_tables_ok pr_contract_ok pr_arity_ok pr_product9 eq_refl).
+Qed.
+Example C08_product_total_params_value :
+  let kids := map (pkid pr_rule pr_tab 1) (kid_eps pr_rule 9) in
+  let comps := prod_comps (pars pr_rule 9) (pmins_of (pr_rule 9)) kids [1; 1] in
+  comps = [[[0; 0]; [1; 1]]; [[0; 1]; [1; 0]]; [[1; 0]; [0; 1]]; [[1; 1]; [0; 0]]] /\
+  map (prod_weight (pars pr_rule 9) kids) comps = [Ok (Some 1); Ok (Some 0); Ok (Some 0); Ok (Some 1)] /\
+  pcnt pr_tab 9 1 [1] = 2.
+Proof. repeat split; vm_compute; reflexivity. Qed.
+
+(* covers C08_draws_return_product_params *)
+Example C08_draws_return_product_params_nonvacuous :
+  (forall r, 1 <= r <= 2 ->
+     exists ex, prod_pick_dict [1] [0; 0] (map (pkid pr_rule pr_tab 1) [(8%nat, K1); (8%nat, K1)]) 1 P_k1 r = Ok ex) /\
+  (forall r, 2 < r ->
+     prod_pick_dict [1] [0; 0] (map (pkid pr_rule pr_tab 1) [(8%nat, K1); (8%nat, K1)]) 1 P_k1 r = Err E_RUNTIME).
+Proof.
+  destruct pr_tree as (_ & _ & _ & _ & D).
+  exact (C08_draws_return_product_params pr_rule pr_tab 9%nat P_k1 [1] 1 pr_tables_ok pr_contract_ok pr_arity_ok
+           pr_product9 D).
+Qed.
+Example C08_draws_return_product_params_value :
+  map (prod_pick_dict [1] [0; 0] (map (pkid pr_rule pr_tab 1) [(8%nat, K1); (8%nat, K1)]) 1 P_k1) [1; 2; 3]
+  = [Ok [(0, [(1, 0)]); (1, [(1, 1)])]; Ok [(1, [(1, 1)]); (0, [(1, 0)])]; Err E_RUNTIME].
+Proof. vm_compute. reflexivity. Qed.
+
 Print Assumptions C08_threshold.
 Print Assumptions C08_threshold_interval.
 Print Assumptions C08_threshold_union.
